@@ -347,7 +347,7 @@ func checkC06(c CaseC06, x *hx.Ctx) *hx.Failure {
 var propC06 = hx.Register(hx.Prop[CaseC06]{ID: "C06", Gen: genC06, Check: checkC06})
 
 func c06Rule() {
-	hx.Rec("C06").SetRule("cases: a reference-model PMT (program number, version, current_next, PCR PID, 0..3 program descriptors, 0..12 streams with distinct PIDs and 0..4 descriptors each incl. 'probe' descriptors whose body content is observable through the decoders; section_length <= 1021, sometimes exactly 1021) x a carrier (pointer_field 0..255 with 0xFF filler; values above 184 only for the payload-level API, 0..2 complete sections of other tables before, 0..200 trailing 0xFF) x a packetisation (payload sizes 1..184 per packet via adaptation-field stuffing or payload-side padding of the last packet, 0..3 other-PID packets before any packet, one time in three carrying a complete PAT section that lists other PIDs, the PMT PID or nothing); one small PMT in eight travels in a payload of exactly 188 bytes behind pointer_field 0x47; one stream in three is read through a bufio.Reader (16..4096 bytes) that the caller reads on from afterwards, and the decoded table is compared again. Oracle: the model. NewPMT(payload), ReadPMT(stream): stream list (type, PID, descriptor tags, probe values), Pids, version, current_next; PmtAccumulatorDoneFunc on every prefix (payloads <= 400 bytes) or on packet boundaries, +-3 bytes around section start/end and 48 more lengths; ExtractCRC for pointer 0; header accessors = first section. Enumerated: TableHeader encode/decode identity over all 2^20 (table_id, flags, section_length 0..1023). Non-trivial: (>= 2 packets or pointer_field > 0 or a preceding section) and >= 1 stream with >= 1 descriptor.",
+	hx.Rec("C06").SetRule("cases: a reference-model PMT (program number, version, current_next, PCR PID, 0..3 program descriptors, 0..12 streams with distinct PIDs and 0..4 descriptors each incl. 'probe' descriptors whose body content is observable through the decoders; section_length <= 1021, sometimes exactly 1021) x a carrier (pointer_field 0..255 with 0xFF filler; values above 184 only for the payload-level API, 0..2 complete sections of other tables before (private ones and the ISO 14496 / metadata / IPMP tables 0x04..0x07 up to 4093 bytes long), 0..200 trailing 0xFF) x a packetisation (payload sizes 1..184 per packet via adaptation-field stuffing or payload-side padding of the last packet, 0..3 other-PID packets before any packet, one time in three carrying a complete PAT section that lists other PIDs, the PMT PID or nothing); one small PMT in eight travels in a payload of exactly 188 bytes behind pointer_field 0x47; one stream in three is read through a bufio.Reader (16..4096 bytes) that the caller reads on from afterwards, and the decoded table is compared again. Oracle: the model. NewPMT(payload), ReadPMT(stream): stream list (type, PID, descriptor tags, probe values), Pids, version, current_next; PmtAccumulatorDoneFunc on every prefix (payloads <= 400 bytes) or on packet boundaries, +-3 bytes around section start/end and 48 more lengths; ExtractCRC for pointer 0; header accessors = first section. Enumerated: TableHeader encode/decode identity over all 2^20 (table_id, flags, section_length 0..1023). Non-trivial: (>= 2 packets or pointer_field > 0 or a preceding section) and >= 1 stream with >= 1 descriptor.",
 		"prefixes ending exactly at an inner section boundary are not asserted for the completion predicate (both clauses of the statement apply there)",
 		"ReadPMT is asserted for PMTs with >= 1 stream, streams whose first PMT-PID packet is the unit start, and packetisations without a packet boundary exactly at the start of a section that follows complete sections (ISO requires a new unit start there)",
 		"exactly one table_id 0x02 section per payload ('other complete sections before it' is read as sections of other tables: with two program map sections in one payload the statement does not say which one is meant); distinct elementary PIDs")
